@@ -438,6 +438,27 @@ func (r *Rec) Materialize(k int, transactional bool) physical.Backend {
 	return b
 }
 
+// ForkAt returns a new recording backend over a fresh in-memory store holding the state after the
+// first k mutation groups; its own mutation history starts with those k groups, so positions in the
+// history stay comparable between a store and its forks.
+func (r *Rec) ForkAt(k int, transactional bool) physical.Backend {
+	inner := r.Materialize(k, transactional)
+	r.mu.Lock()
+	if k > len(r.muts) {
+		k = len(r.muts)
+	}
+	pre := append([][]mutation(nil), r.muts[:k]...)
+	r.mu.Unlock()
+	nb := NewRec(inner)
+	RecOf(nb).muts = pre
+	return nb
+}
+
+// Fork is ForkAt the current end of the history.
+func (r *Rec) Fork(transactional bool) physical.Backend {
+	return r.ForkAt(r.MutationCount(), transactional)
+}
+
 // FailNth returns a fault function failing the n-th (1-based) operation that
 // matches pred, once; fired reports whether it triggered.
 func FailNth(pred func(o *Op) bool, n int) (f func(o *Op) error, fired func() *Op) {
